@@ -70,6 +70,10 @@ class Generator(SchemaVisitor[Any]):
 
         min_value = schema.props.min if (schema.props.min is not Nil) else INT_MIN
         max_value = schema.props.max if (schema.props.max is not Nil) else INT_MAX
+        if schema.props.max is Nil:
+            max_value = max(max_value, min_value)
+        if schema.props.min is Nil:
+            min_value = min(min_value, max_value)
         return self._random.random_int(min_value, max_value)
 
     def visit_float(self, schema: FloatSchema, **kwargs: Any) -> float:
@@ -78,6 +82,10 @@ class Generator(SchemaVisitor[Any]):
 
         min_value = schema.props.min if (schema.props.min is not Nil) else FLOAT_MIN
         max_value = schema.props.max if (schema.props.max is not Nil) else FLOAT_MAX
+        if schema.props.max is Nil:
+            max_value = max(max_value, min_value)
+        if schema.props.min is Nil:
+            min_value = min(min_value, max_value)
         precision = schema.props.precision if (schema.props.precision is not Nil) else Nil
 
         if precision is not Nil:
@@ -97,6 +105,8 @@ class Generator(SchemaVisitor[Any]):
         else:
             min_length = schema.props.min_len if (schema.props.min_len is not Nil) else STR_LEN_MIN
             max_length = schema.props.max_len if (schema.props.max_len is not Nil) else STR_LEN_MAX
+            if schema.props.max_len is Nil:
+                max_length = max(max_length, min_length)
             if schema.props.substr is not Nil:
                 min_length = max(min_length, len(schema.props.substr))
                 max_length = max(max_length, len(schema.props.substr))
@@ -137,6 +147,8 @@ class Generator(SchemaVisitor[Any]):
             if schema.props.max_len is not Nil:
                 max_length = schema.props.max_len
                 is_length_specified = True
+            else:
+                max_length = max(max_length, min_length)
             length = self._random.random_int(min_length, max_length)
 
         if schema.props.type is not Nil:
